@@ -61,3 +61,37 @@ Print Assumptions C12_cone3d_obtuse.
 Theorem C12_cone3d_right : cone3d_right_raw = eye 3 /\ cone3d_right_normalised = false.
 Proof. exact cone3d_right_geometry. Qed.
 Print Assumptions C12_cone3d_right.
+
+(* ---- bundled cones whose matrices involve angles (over R; regenerated constructors) ---- *)
+From Coq Require Import Reals.
+From VOPy Require Import Theta2D IceCream.
+From VOPyGen Require Import Gen_formulas.
+
+Theorem C12_theta2d_rows : forall deg, (0 < deg < 180)%R -> deg <> 90%R ->
+  let a := (PI / 4 - rad deg / 2)%R in let b := (PI / 4 + rad deg / 2)%R in
+  fst (get_2d_w deg) = ((- sin a)%R, cos a) /\ snd (get_2d_w deg) = (sin b, (- cos b)%R).
+Proof. exact get_2d_w_rows. Qed.
+Print Assumptions C12_theta2d_rows.
+
+Theorem C12_theta2d_contains_exactly_directions_within_half_angle : forall deg phi, (0 < deg < 180)%R -> deg <> 90%R ->
+  (PI / 4 - PI < phi <= PI / 4 + PI)%R ->
+  (in_cone2 deg (cos phi, sin phi) <-> (PI / 4 - rad deg / 2 <= phi <= PI / 4 + rad deg / 2)%R).
+Proof. exact theta_cone_directions. Qed.
+Print Assumptions C12_theta2d_contains_exactly_directions_within_half_angle.
+
+Theorem C12_icecream_unit_normals_tangent : forall K theta i, (0 < theta < 90)%R -> K <> 0%R ->
+  dot3 (ice_row K theta i) (ice_row K theta i) = 1%R /\
+  dot3 (ice_row K theta i) ice_axis = sin (theta * PI / 180)%R /\ dot3 ice_axis ice_axis = 1%R.
+Proof.
+  intros K theta i H HK. split; [|split].
+  - exact (ice_row_unit K theta i H).
+  - exact (ice_row_tangent K theta i H HK).
+  - exact ice_axis_unit.
+Qed.
+Print Assumptions C12_icecream_unit_normals_tangent.
+
+Theorem C12_tangent_halfspace_contains_circular_cone : forall n a x t,
+  dot3 n n = 1%R -> dot3 a a = 1%R -> dot3 n a = sin t -> (0 < t < PI / 2)%R ->
+  (sqrt (dot3 x x) * cos t <= dot3 x a)%R -> (0 <= dot3 n x)%R.
+Proof. exact halfspace_contains_circular_cone. Qed.
+Print Assumptions C12_tangent_halfspace_contains_circular_cone.
